@@ -59,9 +59,34 @@ PROPS.update({
 PROPS["C04"]["streams"].append(EPOCH)
 PROPS["C04"]["fields"] = r"^powercap\.|" + EPOCH_FIELDS
 
+KEYS = dict(name="keys", quick=(6, 700), thorough=(28, 4000))
+HANDSHAKE = dict(name="handshake", quick=(6, 700), thorough=(28, 4000))
+KA_FIELDS = r"^(assign|optin|optout|newval|rmval)\.|^c\d+\.(ka|byaddr|prune|optin)"
+PROPS.update({
+    "C05": dict(streams=[KEYS, LIFE], rule=PROV_RULE + "; keys stream: 4+2 validators, 5 extra keys plus all provider keys, so collisions, re-assignments (also back to the provider key), validator creation/removal and pruning deadlines are frequent",
+        assumptions=PROV_ASSUME + ["A-HASH: key id <-> consensus address is injective (pool of ed25519 identities)"], fields=KA_FIELDS),
+    "C06": dict(streams=[KEYS], rule=PROV_RULE + "; block times land on / one nanosecond around the pruning deadlines",
+        assumptions=PROV_ASSUME, fields=KA_FIELDS + r"|^end\.|^begin\."),
+    "C11": dict(streams=[LIFE, HANDSHAKE], rule=PROV_RULE, assumptions=PROV_ASSUME,
+        fields=r"^(remove|begin|end)\.|^c\d+\.(phase|removal|client|channel|ka|byaddr|prune|valset|optin|pend|acks|allow|deny|prio|minpow|qinfr|inith|evmin)|^g\.(removeq|client2c|chan2c|infrq)"),
+    "C14": dict(streams=[LIFE, KEYS], rule=PROV_RULE + "; senders drawn from owner / previous owner / other users / governance; signer of validator messages occasionally another validator",
+        assumptions=PROV_ASSUME, fields=r"^(create|update|remove|optin|optout|assign)\.res|^c\d+\.(owner|ps|minpow)"),
+    "C17": dict(streams=[HANDSHAKE], rule=PROV_RULE + "; handshake stream: every combination of ordering, ports, version, hop count, underlying client, initiating side, repeated attempts and confirmations; consumers launched on created clients and on two pre-existing connections that several consumers name",
+        assumptions=PROV_ASSUME + ["core IBC handshake (channel states, connection/client existence) is scripted"],
+        fields=r"^(chantry|chanconfirm|begin)\.|^c\d+\.(client|channel|inith|phase)|^g\.(client2c|chan2c)"),
+    "C20": dict(streams=[LIFE], rule=PROV_RULE + "; infraction-parameter requests partial/repeated/cancelling, before and after launch, block times around the due time",
+        assumptions=PROV_ASSUME, fields=r"^(update|begin)\.res|^c\d+\.(infr|qinfr)|^g\.infrq"),
+})
+
 NOT_APPLICABLE = {}
 
 LEVEL_TEXT = {
+    "C05": "Theorems: every rejection branch of AssignConsumerKey (other validator's provider key, default key, known or prunable key, inactive consumer), success maps key<->validator, frame for other consumers, creation blocked iff key known on an active consumer. Tie: one-step correspondence + key invariants I1-I4 monitored on every implementation state.",
+    "C06": "Theorems: replaced key on a launched consumer keeps resolving and is scheduled at now+unbonding; pruning forgets exactly the keys whose deadline passed (prune_not_early / pruned_when_due); identity fallback. Tie: same streams, deadlines hit to the nanosecond.",
+    "C11": "Theorems: stop schedules removal and keeps state, unlaunched consumers are skipped by queue/send, deletion clears every protocol field, removal not early, second deletion is a no-op. Tie: correspondence + stop/removal monitors.",
+    "C14": "Theorems: update/remove need the owner, Top-N != 0 implies governance owner after every accepted update (incl. combined messages), creation is opt-in only, validator messages need the validator's signature. Tie: correspondence on message results + owner/Top-N monitors.",
+    "C17": "Theorems: OnChanOpenTry accepted only if (ordered, ports, version, one hop, client bound to a channel-less consumer); confirm binds once; launch on a connection whose client is bound elsewhere is rejected. Tie: correspondence + bijection monitor on every implementation state.",
+    "C20": "Theorems: equal request cancels, different request replaces and is due at now+unbonding, pending applied when due and then cleared, at most 200 per block. Tie: correspondence + queue/queued consistency monitor.",
     "C02": "Theorems (Props/C02): soundness, key, power and completeness of the model's computeNextValidators for every staking view; active-set clause from the staking order. Tie: one-step correspondence of the epoch computation + Spec.Epoch.c02* on every set the implementation computed.",
     "C03": "Theorems (Props/C03): the scan returns a member, reaches N %, no larger member does (exact arithmetic, total < 2*10^16). Tie: differential + Spec.Epoch.c03* at every epoch.",
     "C01": "Theorems: apply_diff, accumulate_effect, applyCC_effect/engine, replication_block (any batching of packets in a consumer block ends at the provider's last set). Tie: differential run of DiffValidators/AccumulateChanges/ApplyCCValidatorChanges.",
